@@ -8,7 +8,7 @@ from .. import tlc
 from ..common import Report, pmap
 from ..e2e import base_scenario, directed
 
-FAMILY = r"^files\.(counts_sum|dense_fill|reference|time|time_typed_instance|records|scalar_is_state|pvars)|^output\.snap|^run\.crashed"
+FAMILY = r"^files\.(counts_sum|dense_fill|reference|time|attributes|time_typed_instance|records|scalar_is_state|pvars)|^output\.snap|^run\.crashed"
 DRIVERS = {"e2e-records": ("harness.e2e", "run_e2e", "LadimTrace", FAMILY),
            "e2e-records-after-restart": ("harness.checks.c08", "restarted_only", "LadimTrace", FAMILY)}
 
